@@ -18,7 +18,7 @@ var commonAssumptions = []string{
 var plans = map[string]plan{
 	"C08": {
 		Level:    "exploration",
-		Rule:     "case = (requested type, input bytes) run through all 5 skipping facilities (7 configurations); inputs: bounded-exhaustive strings over a 15-symbol grammar alphabet, mutated valid encodings (truncate/substitute/size-window/splice/insert/delete), huge size fields, nesting 1..70 per container kind and through every entry position, size fields 0x7fffffff..0xffffffff really followed by that many (untouched, mapped) bytes, a follow-up call on the same decoder after every rejection. Non-trivial iff the oracle rejects the input or accepts it with nesting >= 2; distinct by (type, bytes).",
+		Rule:     "case = (requested type, input bytes) run through all 5 skipping facilities (7 configurations); inputs: bounded-exhaustive strings over a 15-symbol grammar alphabet, mutated valid encodings (truncate/substitute/size-window/splice/insert/delete), huge size fields, nesting 1..70 per container kind and through every entry position, size fields 0x7fffffff..0xffffffff really followed by that many (untouched, mapped) bytes, a follow-up call on the same decoder after every rejection. Non-trivial iff the oracle rejects the input or accepts it with nesting >= 2; distinct by (type, bytes). Also: one SkipDecoder whose reader is also read directly between two Next calls (values and raw bytes alternating on bytes-backed, stream-backed and foreign readers, stream possibly ending in a cut-short value); the stream-backed skippers run over standard-library readers (bytes.Reader, strings.Reader, bufio, iotest, Limit/Multi/Section) a quarter of the time.",
 		Required: []string{"oracle-accept judged", "oracle-reject judged", "nesting>=65 cases"},
 		Quick:    []job{{"plain", 8}},
 		Thorough: []job{{"gcstress", 4}, {"plain", 16}, {"race", 4}, {"go126", 4}, {"fuzz", 3}},
@@ -32,42 +32,42 @@ var plans = map[string]plan{
 	},
 	"C03": {
 		Level:    "exploration",
-		Rule:     "case = input bytes run through every buffer-based decoding entry point (23 + Binary.Skip/BytesSkipDecoder for several requested type bytes) at two guard-page placements (input ends at / starts after a PROT_NONE page). Inputs: all strings of length <= 2, grammar-alphabet strings, mutations/truncations/boundary substitutions of valid encodings of every shape (values, Base/BaseResp/exception structs, messages, unknown-field sequences, TTHeader frames), huge size fields. Non-trivial iff length >= 1 and (mutated valid encoding or alphabet string of length >= 3); distinct by bytes.",
+		Rule:     "case = input bytes run through every buffer-based decoding entry point (23 + Binary.Skip/BytesSkipDecoder for several requested type bytes) at two guard-page placements (input ends at / starts after a PROT_NONE page). Inputs: all strings of length <= 2, grammar-alphabet strings, mutations/truncations/boundary substitutions of valid encodings of every shape (values, Base/BaseResp/exception structs, messages, unknown-field sequences, TTHeader frames), huge size fields. Non-trivial iff length >= 1 and (mutated valid encoding or alphabet string of length >= 3); distinct by bytes. Also: every third case additionally places the input in write-protected pages (a store into the input is a fault, reported as decoder-wrote-into-its-input); thorough tier: 2^31 and 2^32 calls of ReadString/ReadBinary with the span cache on (call-counters-wrap).",
 		Required: []string{"guarded decoder calls", "decoder successes", "decoder errors", "full truncation sweeps"},
 		Quick:    []job{{"plain", 8}},
 		Thorough: []job{{"gcstress", 4}, {"plain", 16}, {"asan", 8}, {"race", 4}, {"go126", 4}, {"fuzz", 3}},
 	},
 	"C04": {
 		Level:    "fault_enumeration",
-		Rule:     "case = operation history over {Next,Peek,Skip,ReadBinary}x{0,1,7,4095,4096,4097,8193,20000} + Release (bounded-exhaustive to length 3/4 over these 33 symbols x 6 source behaviours; random to 300 steps incl. negative counts) x hostile source (chunk schedule, zero-byte reads, error kind, error position, error with/after the final data; every error position of every stream <= 64 bytes; endless zero-read source) for the io.Reader-backed and the bytes-backed reader. Every result is checked online against a cursor model over a position-coded stream. Non-trivial iff the history saw a growth (request > 4096 or > 1 pool malloc), a request spanning >= 2 source reads, a surfaced error, or a Release with an unread buffered tail; distinct by (ops, source behaviour, reader kind).",
+		Rule:     "case = operation history over {Next,Peek,Skip,ReadBinary}x{0,1,7,4095,4096,4097,8193,20000} + Release (bounded-exhaustive to length 3/4 over these 33 symbols x 6 source behaviours; random to 300 steps incl. negative counts) x hostile source (chunk schedule, zero-byte reads, error kind, error position, error with/after the final data; every error position of every stream <= 64 bytes; endless zero-read source) for the io.Reader-backed and the bytes-backed reader. Every result is checked online against a cursor model over a position-coded stream. Non-trivial iff the history saw a growth (request > 4096 or > 1 pool malloc), a request spanning >= 2 source reads, a surfaced error, or a Release with an unread buffered tail; distinct by (ops, source behaviour, reader kind). Also: 1-5 MiB consumed and peeked between two Releases with every slice kept; 0..99 empty reads between the last data and the error, for every count.",
 		Required: []string{"errors surfaced", "histories with growth", "releases with unread buffered tail", "errors delivered with data", "zero reads served", "error-position cases", "no-progress histories"},
 		Quick:    []job{{"plain", 8}, {"poison", 4}},
 		Thorough: []job{{"gcstress", 4}, {"plain", 16}, {"poison", 8}},
 	},
 	"C05": {
 		Level:    "fault_enumeration",
-		Rule:     "case = operation history over {Malloc eager, Malloc lazily-filled, WriteBinary}x{0,1,3,4095,4096,4097,8193,20000} + Flush (bounded-exhaustive to length 3/4 over 25 symbols x 7 configurations; random to 180 steps) x sink behaviour (never fails / fails at the k-th Write for every k) x writer kind (io.Writer-backed; bytes-backed over nil / empty-with-capacity / partial / full initial slices). Regions get distinct content, lazily filled ones only right before Flush in shuffled order. Checked online against a region/concatenation model. Non-trivial iff >= 1 growth between flushes (> 4096 unflushed bytes), a lazily filled region, a sink failure or >= 2 flushes; distinct by (ops, configuration).",
+		Rule:     "case = operation history over {Malloc eager, Malloc lazily-filled, WriteBinary}x{0,1,3,4095,4096,4097,8193,20000} + Flush (bounded-exhaustive to length 3/4 over 25 symbols x 7 configurations; random to 180 steps) x sink behaviour (never fails / fails at the k-th Write for every k) x writer kind (io.Writer-backed; bytes-backed over nil / empty-with-capacity / partial / full initial slices). Regions get distinct content, lazily filled ones only right before Flush in shuffled order. Checked online against a region/concatenation model. Non-trivial iff >= 1 growth between flushes (> 4096 unflushed bytes), a lazily filled region, a sink failure or >= 2 flushes; distinct by (ops, configuration). Also: sinks that fail once and accept writes again afterwards (the error must stick and nothing more may reach the sink); 1-5 MiB accumulated between two flushes in many lazily filled pieces.",
 		Required: []string{"flushes", "histories with growth", "histories with lazily filled regions", "sink failures injected", "bytes-writer flushes judged", "fail-at-every-k histories"},
 		Quick:    []job{{"plain", 8}, {"poison", 4}},
 		Thorough: []job{{"gcstress", 4}, {"plain", 16}, {"poison", 8}},
 	},
 	"C09": {
 		Level:    "exploration",
-		Rule:     "case = history that retains every slice handed out by Next/Peek (resp. every Malloc region) until Release/Flush while later requests force 0..6 growths, over the io.Reader-backed and bytes-backed reader/writer with caller buffers of power-of-two and other capacities; SkipDecoder runs retaining up to 200 results over a fragmenting source; ReaderSkipDecoder growth sequences. Configuration A (poisoning pool shim: recycled buffers are poisoned and quarantined, foreign/double frees and writes after recycle are events) and configuration B (real pool plus a co-tenant that between any two operations takes buffers from every relevant size class, checks their address ranges against all live slices and caller memory, and overwrites them). Non-trivial iff a slice is retained across a request > 4096 (growth) or a caller-owned buffer is involved; distinct by (configuration, ops, source/initial-slice class).",
+		Rule:     "case = history that retains every slice handed out by Next/Peek (resp. every Malloc region) until Release/Flush while later requests force 0..6 growths, over the io.Reader-backed and bytes-backed reader/writer with caller buffers of power-of-two and other capacities; SkipDecoder runs retaining up to 200 results over a fragmenting source; ReaderSkipDecoder growth sequences. Configuration A (poisoning pool shim: recycled buffers are poisoned and quarantined, foreign/double frees and writes after recycle are events) and configuration B (real pool plus a co-tenant that between any two operations takes buffers from every relevant size class, checks their address ranges against all live slices and caller memory, and overwrites them). Non-trivial iff a slice is retained across a request > 4096 (growth) or a caller-owned buffer is involved; distinct by (configuration, ops, source/initial-slice class). Also: readers and writers dropped without Release/Flush, their slices re-checked after three collections and pool reuse; components layered over a reader (ttheader.Decode, BufferReader.Skip/ReadMessageBegin, SkipDecoder.Next) run on valid and mutated input while the caller holds an earlier slice - ReadLen may not go back and the slice may not change.",
 		Required: []string{"reader histories retaining a slice across a growth", "caller-owned reader buffers", "caller-owned writer targets", "co-tenant buffers scribbled", "pool frees (shim)", "skip-decoder results retained", "reader-skip-decoder growth sequences", "growth ladders"},
 		Quick:    []job{{"plain", 8}, {"poison", 8}},
 		Thorough: []job{{"gcstress", 4}, {"plain", 16}, {"poison", 16}, {"go126", 4}},
 	},
 	"C01": {
 		Level:    "exploration",
-		Rule:     "case = sequence of 1..40 codec values (bool, byte, i16, i32, i64, double, string, binary, field begin/stop, map/list/set begin with sizes up to 2^31-1, message begin) written by the in-place writer (into an exact-length canary-margined buffer), the appending writer (onto a random prefix/capacity) and the stream writer (over a recording io.Writer and over a bytes writer), each compared byte-for-byte with an independent big-endian encoder and with the advertised length; then decoded by the buffer reader at running offsets (input in a guard-page arena) and by the stream reader over a hostile source (6 fragmentation schedules, zero-byte reads, EOF with data) and over a bytes reader. Exhaustive over all bool/i8/i16 (thorough: all 2^32 i32), boundary string lengths (thorough: every length 0..9000). Non-trivial iff >= 2 kinds, or a string > 4000 bytes, or a fragmenting schedule; distinct by (values, schedule).",
+		Rule:     "case = sequence of 1..40 codec values (bool, byte, i16, i32, i64, double, string, binary, field begin/stop, map/list/set begin with sizes up to 2^31-1, message begin) written by the in-place writer (into an exact-length canary-margined buffer), the appending writer (onto a random prefix/capacity) and the stream writer (over a recording io.Writer and over a bytes writer), each compared byte-for-byte with an independent big-endian encoder and with the advertised length; then decoded by the buffer reader at running offsets (input in a guard-page arena) and by the stream reader over a hostile source (6 fragmentation schedules, zero-byte reads, EOF with data) and over a bytes reader. Exhaustive over all bool/i8/i16 (thorough: all 2^32 i32), boundary string lengths (thorough: every length 0..9000). Non-trivial iff >= 2 kinds, or a string > 4000 bytes, or a fragmenting schedule; distinct by (values, schedule). Also: the bytes-backed writer under the stream writer starts from targets with initial contents / spare capacity.",
 		Required: []string{"values round-tripped", "stream bytes compared", "string-length cases"},
 		Quick:    []job{{"plain", 8}},
 		Thorough: []job{{"gcstress", 4}, {"plain", 16}, {"race", 4}},
 	},
 	"C06": {
 		Level:    "exploration",
-		Rule:     "case = header parameter set (flags, sequence id, protocol id incl. unsupported ones, int/str info maps of 0..200 entries with empty/binary/long keys and values, ACL-token key alone or with others) + payload length, encoded by EncodeToBytes and by Encode over a buffered writer, checked by a strict independent layout parser, decoded by an independent decoder and by the library (bytes-backed and over a hostile fragmenting source); header-info sizes swept exactly over 65536-16..65536+16 in three shapes, every padding residue, all flags (stride in quick), all 256 protocol ids, oversize keys/values/entry counts, parameters beyond 4 GiB, and a writer that refuses its k-th call for every k (Encode must fail). Non-trivial iff >= 1 info entry or size within 64 of the limit; distinct by parameter set + payload length.",
+		Rule:     "case = header parameter set (flags, sequence id, protocol id incl. unsupported ones, int/str info maps of 0..200 entries with empty/binary/long keys and values, ACL-token key alone or with others) + payload length, encoded by EncodeToBytes and by Encode over a buffered writer, checked by a strict independent layout parser, decoded by an independent decoder and by the library (bytes-backed and over a hostile fragmenting source); header-info sizes swept exactly over 65536-16..65536+16 in three shapes, every padding residue, all flags (stride in quick), all 256 protocol ids, oversize keys/values/entry counts, parameters beyond 4 GiB, and a writer that refuses its k-th call for every k (Encode must fail). Non-trivial iff >= 1 info entry or size within 64 of the limit; distinct by parameter set + payload length. Also: payloads of 1-5 MiB written through the same writer before the total-length field is filled in, and frames behind more than 1 MiB of unflushed earlier bytes.",
 		Required: []string{"frames encoded", "frames round-tripped", "encode errors", "frames with padding", "size-limit cases", "frames with exactly 65536 info bytes", "unsupported-protocol frames"},
 		Quick:    []job{{"plain", 8}},
 		Thorough: []job{{"gcstress", 4}, {"plain", 16}},
@@ -81,21 +81,21 @@ var plans = map[string]plan{
 	},
 	"C07": {
 		Level:    "exploration",
-		Rule:     "case = load/reload/query history on StrMap[int], StrMap[struct] and Str2Str instances: key sets of sizes around every entry of the prime table (0..1000, thorough up to 2*10^5) with adversarial key shapes (empty key, all proper prefixes of a long key, shared prefixes/suffixes, one-bit near-duplicates, mixed and equal lengths), LoadFromMap/LoadFromSlice sequences growing and shrinking one instance, failed (length-mismatch) loads in between, never-loaded and empty maps; probes = every key, key +/- one byte, prefixes, suffixes, bit-flips, keys of earlier rounds, random strings; every answer (Get, Len, Item enumeration) compared with a Go map. Fresh instances per case give fresh hash seeds. Non-trivial iff n >= 2 or a reload or an empty/prefix key; distinct by case index (hash seeds differ per instance).",
+		Rule:     "case = load/reload/query history on StrMap[int], StrMap[struct] and Str2Str instances: key sets of sizes around every entry of the prime table (0..1000, thorough up to 2*10^5) with adversarial key shapes (empty key, all proper prefixes of a long key, shared prefixes/suffixes, one-bit near-duplicates, mixed and equal lengths), LoadFromMap/LoadFromSlice sequences growing and shrinking one instance, failed (length-mismatch) loads in between, never-loaded and empty maps; probes = every key, key +/- one byte, prefixes, suffixes, bit-flips, keys of earlier rounds, random strings; every answer (Get, Len, Item enumeration) compared with a Go map. Fresh instances per case give fresh hash seeds. Non-trivial iff n >= 2 or a reload or an empty/prefix key; distinct by case index (hash seeds differ per instance). Also: loads with one key twice (outside the domain: judged only when refused - a refused load changes nothing).",
 		Required: []string{"map queries compared", "failed loads checked", "never-loaded/empty cases", "load cycles"},
 		Quick:    []job{{"plain", 8}, {"hooks", 2}},
 		Thorough: []job{{"gcstress", 4}, {"plain", 16}, {"race", 4}, {"hooks", 4}},
 	},
 	"C11": {
 		Level:    "exploration",
-		Rule:     "case = Base / BaseResp / ApplicationException value (strings of 0..9000 bytes, nil / empty / 1..50-entry maps): BLength vs FastWrite vs FastWriteNocopy(nil) vs FastRead lengths, bytes vs an independent encoder (maps <= 1 entry), value reproduced; then the same value encoded independently with the known fields in a random permutation and 0..6 unknown fields of any type (generated value trees; ids equal to known ids with another type, ids colliding modulo 256, whole int16 range) inserted at every gap, followed by trailing garbage: FastRead must return the exact stream length and undisturbed known fields. Inputs sit in a guard-page arena. Non-trivial iff >= 1 unknown field; distinct by (struct kind, field order, bytes).",
+		Rule:     "case = Base / BaseResp / ApplicationException value (strings of 0..9000 bytes, nil / empty / 1..50-entry maps): BLength vs FastWrite vs FastWriteNocopy(nil) vs FastRead lengths, bytes vs an independent encoder (maps <= 1 entry), value reproduced; then the same value encoded independently with the known fields in a random permutation and 0..6 unknown fields of any type (generated value trees; ids equal to known ids with another type, ids colliding modulo 256, whole int16 range) inserted at every gap, followed by trailing garbage: FastRead must return the exact stream length and undisturbed known fields. Inputs sit in a guard-page arena. Non-trivial iff >= 1 unknown field; distinct by (struct kind, field order, bytes). Also: the direct-writer cases of C15 (FastWriteNocopy with a recording NocopyWriter, field lengths on both sides of the threshold and pairs that straddle it).",
 		Required: []string{"structs checked", "structs with unknown fields"},
 		Quick:    []job{{"plain", 8}},
 		Thorough: []job{{"gcstress", 4}, {"plain", 16}},
 	},
 	"C12": {
 		Level:    "exploration",
-		Rule:     "case = (method name of 0..70000 arbitrary bytes, message type, sequence id) through WriteMessageBegin / AppendMessageBegin / BufferWriter.WriteMessageBegin vs an independent encoder and MessageBeginLength, read back by Binary.ReadMessageBegin (guard-page arena) and BufferReader.ReadMessageBegin over a fragmenting source; all 65536 message types; all 65536 first-word high halves x 5 low halves (must be accepted iff 0x8001, else BAD_VERSION on both readers); every truncation point and negative name lengths (both readers and UnmarshalFastMsg must fail); MarshalFastMsg -> UnmarshalFastMsg round trips with BaseResp payloads; EXCEPTION messages must surface as *ApplicationException with type id and text and leave the caller's struct untouched (also when the exception body is cut at any point: an error, nothing decoded). Every case is non-trivial; distinct by its parameters.",
+		Rule:     "case = (method name of 0..70000 arbitrary bytes, message type, sequence id) through WriteMessageBegin / AppendMessageBegin / BufferWriter.WriteMessageBegin vs an independent encoder and MessageBeginLength, read back by Binary.ReadMessageBegin (guard-page arena) and BufferReader.ReadMessageBegin over a fragmenting source; all 65536 message types; all 65536 first-word high halves x 5 low halves (must be accepted iff 0x8001, else BAD_VERSION on both readers); every truncation point and negative name lengths (both readers and UnmarshalFastMsg must fail); MarshalFastMsg -> UnmarshalFastMsg round trips with BaseResp payloads; EXCEPTION messages must surface as *ApplicationException with type id and text and leave the caller's struct untouched (also when the exception body is cut at any point: an error, nothing decoded). Every case is non-trivial; distinct by its parameters. Also: every header is also read from a source holding nothing else (no Read call after its last byte was delivered); an unmarked first word in front of a well-formed header must still be a bad version for both readers and UnmarshalFastMsg.",
 		Required: []string{"envelopes round-tripped", "first words tried", "truncation sweeps", "messages round-tripped", "exception messages"},
 		Quick:    []job{{"plain", 8}},
 		Thorough: []job{{"gcstress", 4}, {"plain", 16}},
@@ -109,21 +109,21 @@ var plans = map[string]plan{
 	},
 	"C15": {
 		Level:    "exploration",
-		Rule:     "case = sequence of 1..8 WriteStringNocopy/WriteBinaryNocopy calls with lengths {0,1,100,4094,4095,4096,4097,8192,12288,20000} (exhaustive over all triples) into a linear buffer that is a window of a larger block (spare capacity 0/1/64), with a recording direct writer whose pieces are spliced independently at len(buf)-remainCap and compared with the copying-path bytes from an independent encoder; returned offset + direct pieces must equal the advertised length; nil writer must be byte-identical to the copying path; Base/BaseResp with every small/large field combination (byte compare when the map has <= 1 entry, decode compare otherwise), FastMarshal. Non-trivial iff >= 1 value >= 4096 with a writer attached; distinct by (length vector, API sequence, spare, writer).",
+		Rule:     "case = sequence of 1..8 WriteStringNocopy/WriteBinaryNocopy calls with lengths {0,1,100,4094,4095,4096,4097,8192,12288,20000} (exhaustive over all triples) into a linear buffer that is a window of a larger block (spare capacity 0/1/64), with a recording direct writer whose pieces are spliced independently at len(buf)-remainCap and compared with the copying-path bytes from an independent encoder; returned offset + direct pieces must equal the advertised length; nil writer must be byte-identical to the copying path; Base/BaseResp with every small/large field combination (byte compare when the map has <= 1 entry, decode compare otherwise), FastMarshal. Non-trivial iff >= 1 value >= 4096 with a writer attached; distinct by (length vector, API sequence, spare, writer). Also: values of 1-3 MiB alone and between small neighbours; struct field lengths of 1500-4000 so that a map key and its value straddle the threshold together.",
 		Required: []string{"direct pieces spliced", "nocopy sequences", "nil-writer sequences", "struct cases"},
 		Quick:    []job{{"plain", 8}},
 		Thorough: []job{{"gcstress", 4}, {"plain", 16}},
 	},
 	"C16": {
 		Level:    "exploration",
-		Rule:     "case = run of strings/binaries decoded by thrift.Binary (lengths over every span-allocator class: 0, <128, every power of two +-1 up to 128 KiB, larger; runs of 200..800 values wrapping the 1 MiB spans) with the span cache off and on; every returned []byte is appended to and overwritten, then the input buffer is overwritten: input, siblings and snapshots must stay intact, and returned slices (incl. spare capacity) must not overlap the input; stream reader: values of a first message retained across Release, Recycle, pool reuse by a co-tenant and the decoding of a second message through a recycled BufferReader; decoded Base / ApplicationException / unknown-field trees after their input is overwritten. Non-trivial iff length >= 1; distinct by (lengths, reader kind, span-cache setting).",
+		Rule:     "case = run of strings/binaries decoded by thrift.Binary (lengths over every span-allocator class: 0, <128, every power of two +-1 up to 128 KiB, larger; runs of 200..800 values wrapping the 1 MiB spans) with the span cache off and on; every returned []byte is appended to and overwritten, then the input buffer is overwritten: input, siblings and snapshots must stay intact, and returned slices (incl. spare capacity) must not overlap the input; stream reader: values of a first message retained across Release, Recycle, pool reuse by a co-tenant and the decoding of a second message through a recycled BufferReader; decoded Base / ApplicationException / unknown-field trees after their input is overwritten. Non-trivial iff length >= 1; distinct by (lengths, reader kind, span-cache setting). Also: 5 MiB (thorough 24 MiB) of values of one size class (0-127, 1-16, 128-255, 1-2 KiB bytes) all kept and re-verified; 3-8 goroutines decoding one size class at once, each overwriting its own byte slices in place (also under the race detector); values decoded by other readers while one stream reader is in the middle of a value that then fails or completes.",
 		Required: []string{"buffer-decoded values attacked", "stream-decoded values attacked", "structs attacked", "bytes decoded in runs"},
 		Quick:    []job{{"plain", 8}, {"race", 2}},
 		Thorough: []job{{"gcstress", 4}, {"plain", 16}, {"race", 4}, {"go126", 4}},
 	},
 	"C17": {
 		Level:    "exploration",
-		Rule:     "case = (entry point, malformed input) classified by the independent grammar oracle into cause sets {TRUNCATED, NEGATIVE, UNKNOWN_TYPE, DEPTH}: the error of Binary.Skip / Binary.Read* / ReadMessageBegin must be (or wrap) a *ProtocolException whose TypeId is in the accepted set (TRUNCATED, UNKNOWN_TYPE -> INVALID_DATA; NEGATIVE -> NEGATIVE_SIZE; bad first word -> BAD_VERSION; nesting >= 64 -> also DEPTH_LIMIT; simultaneous causes -> any). Inputs: grammar-alphabet strings (exhaustive), mutated encodings, negative sizes in every size position for all 11x11 element types, nesting 60..70. Stream reader: valid streams cut at every position with every injected error value (io.EOF, io.ErrUnexpectedEOF, two custom) with/after the final data: errors.Is(err, sourceErr) must hold for every Read*/Skip. Every case is a failure-class instance; distinct by (input, type).",
+		Rule:     "case = (entry point, malformed input) classified by the independent grammar oracle into cause sets {TRUNCATED, NEGATIVE, UNKNOWN_TYPE, DEPTH}: the error of Binary.Skip / Binary.Read* / ReadMessageBegin must be (or wrap) a *ProtocolException whose TypeId is in the accepted set (TRUNCATED, UNKNOWN_TYPE -> INVALID_DATA; NEGATIVE -> NEGATIVE_SIZE; bad first word -> BAD_VERSION; nesting >= 64 -> also DEPTH_LIMIT; simultaneous causes -> any). Inputs: grammar-alphabet strings (exhaustive), mutated encodings, negative sizes in every size position for all 11x11 element types, nesting 60..70. Stream reader: valid streams cut at every position with every injected error value (io.EOF, io.ErrUnexpectedEOF, two custom) with/after the final data: errors.Is(err, sourceErr) must hold for every Read*/Skip. Every case is a failure-class instance; distinct by (input, type). Also: stream failures after runs of 1..99 empty reads between the last data and the error.",
 		Required: []string{"skip failures classified", "reader failures classified", "message-begin failures classified", "stream failures classified", "negative-size cases", "source-error sweeps"},
 		Quick:    []job{{"plain", 8}},
 		Thorough: []job{{"gcstress", 4}, {"plain", 16}},
@@ -151,7 +151,7 @@ var plans = map[string]plan{
 	},
 	"C14": {
 		Level:       "exploration",
-		Rule:        "case = one execution: G goroutines (8..64) at GOMAXPROCS 2..16, each running hundreds of create/use/release cycles of every pooled type (BufferWriter/BufferReader over DefaultWriter/DefaultReader with yielding sinks and sources, the three skip decoders incl. values > 4 KiB, TTHeader bytes- and stream-backed, Binary.ReadString/ReadBinary with the span allocator on, FastMarshal/FastUnmarshal, MarshalFastMsg) with payload bytes that encode (goroutine, iteration, offset), plus Get/Item/Len on freshly loaded shared maps whose first lookups happen concurrently. Oracles: the Go race detector (reports parsed from the log, de-duplicated by stack pair) and each goroutine's comparison with its own expected bytes. The monitor keeps only goroutine-local state until the join, so it adds no synchronisation. Builds: -race, -race with the yield-injecting pool shim (thorough), plain at 10x iterations (contamination only). Non-trivial iff pooled objects were observed in >= 2 goroutines in that execution; distinct by (build, G, P, repetition, seed).",
+		Rule:        "case = one execution: G goroutines (8..64) at GOMAXPROCS 2..16, each running hundreds of create/use/release cycles of every pooled type (BufferWriter/BufferReader over DefaultWriter/DefaultReader with yielding sinks and sources, the three skip decoders incl. values > 4 KiB, TTHeader bytes- and stream-backed, Binary.ReadString/ReadBinary with the span allocator on, FastMarshal/FastUnmarshal, MarshalFastMsg) with payload bytes that encode (goroutine, iteration, offset), plus Get/Item/Len on freshly loaded shared maps whose first lookups happen concurrently. Oracles: the Go race detector (reports parsed from the log, de-duplicated by stack pair) and each goroutine's comparison with its own expected bytes. The monitor keeps only goroutine-local state until the join, so it adds no synchronisation. Builds: -race, -race with the yield-injecting pool shim (thorough), plain at 10x iterations (contamination only). Non-trivial iff pooled objects were observed in >= 2 goroutines in that execution; distinct by (build, G, P, repetition, seed). Also: acquire/release storms - all goroutines do nothing but take, use once and release one pooled type (the three skip decoders, BufferReader, BufferWriter) - with an ownership monitor (one atomic cell per object address, claimed on leaving the constructor, cleared before Release/Recycle).",
 		Required:    []string{"pooled objects used by >= 2 goroutines", "executions", "cycles writer+reader", "cycles skip-decoders", "cycles ttheader", "cycles binary+fastcodec", "cycles shared-maps", "cycles own-maps", "cycles peek-retain", "cycles unknown-fields", "cycles shared-header-param"},
 		Assumptions: []string{"absence of a race report says nothing about interleavings that were not produced"},
 		Quick:       []job{{"race", 4}, {"plain", 2}},
